@@ -229,6 +229,9 @@ impl<'a> Visitor<'a, '_> for Checker {
                         {
                             // The binding is now initialized
                             self.uninitialized_values.remove(&id.name);
+                            // so the uses of it inside its own definition are not uses of an
+                            // uninitialized value as far as the enclosing expressions are concerned
+                            self.uninitialized_free_variables.truncate(start);
                         }
                     }
                 }
